@@ -221,8 +221,9 @@ fn c03_blocked_wake_2() {
 }
 
 // =========================================================================================
-// C03  c03.enter.wakes — every kernel entry that returns successfully runs wake_blocked_futures exactly once
-//      (after the syscall, i.e. seeing the head the kernel advanced); ETIME/EINTR/hard errors do not.
+// C03  c03.enter.wakes — every kernel entry that returns Ok to Ring::poll (timeouts and interruptions included) runs
+//      wake_blocked_futures exactly once (after the syscall, i.e. seeing the head the kernel advanced); hard errors
+//      (returned to the caller) do not.
 //      wake_blocked_futures itself is replaced by its contract here and proved by c03.blocked.*.
 // =========================================================================================
 #[kani::proof]
@@ -251,7 +252,11 @@ fn c03_enter_wakes() {
         assert!(env::evn() == 1 && env::evat(0).0 == env::EV_ENTER, "after the system call");
     } else if errno == libc::ETIME || errno == libc::EINTR {
         assert!(matches!(res, Ok(0)), "timeout / interruption are not errors");
-        assert!(calls == 0);
+        // From the property, not from the code: a future that found the queue full is woken by a subsequent Ring::poll
+        // once room is available EVEN IF NO OPERATION EVER COMPLETES, i.e. also when that poll's kernel entry merely
+        // times out (nothing to submit, nothing completed) - the state left behind when the waker was registered just
+        // after another thread's entry (or the kernel's submission thread) drained the queue.
+        assert!(calls == 1, "timed-out / interrupted kernel entry => blocked futures are still given their chance");
     } else {
         assert!(matches!(&res, Err(e) if e.raw_os_error() == Some(errno)));
         assert!(calls == 0);
